@@ -6,10 +6,13 @@ import (
 	. "github.com/antonmedv/expr/ast"
 )
 
-type inRange struct{}
+type inRange struct {
+	scopes elementScopes
+}
 
-func (*inRange) Enter(*Node) {}
-func (*inRange) Exit(node *Node) {
+func (v *inRange) Enter(node *Node) { v.scopes.enter(*node) }
+func (v *inRange) Exit(node *Node) {
+	v.scopes.exit(*node)
 	switch n := (*node).(type) {
 	case *BinaryNode:
 		if n.Operator == "in" || n.Operator == "not in" {
@@ -22,6 +25,11 @@ func (*inRange) Exit(node *Node) {
 				// values typed only at run time, and not for sized integer
 				// kinds, where the comparison truncates the bounds (an int8
 				// zero is "in" 1..257 through 256, but not >= 1).
+				return
+			}
+			if v.scopes.guessed() {
+				// # over a collection with dynamically typed parts is an
+				// int only by the checker's guess.
 				return
 			}
 			if !isSimpleOperand(n.Left) {
